@@ -33,12 +33,16 @@ type CaseSpec struct {
 	UStore     int  `json:"u_store"`    // unmarshal: 0 stores the expected value, 1 stores a different value, 2 stores nothing
 	UErr       int  `json:"u_err"`      // unmarshal: 0 no error, 1 error, 2 panic (after storing)
 	NilValue   bool `json:"nil_value"`  // pointer type only: the case's Value is a nil pointer
+	EmptyData  bool `json:"empty_data"` // OnlyMarshal cases only: the expected Data is empty (the marshaler returns nil or an empty slice)
 }
+
+// Hook kinds: 0 nil, 1 ok, 2 returns error, 3 panics, 4 ok but overwrites the Data field of the case it is handed.
+const scribbled = "scribbled-by-hook"
 
 // ListSpec is one helper invocation.
 type ListSpec struct {
 	Helper       string     `json:"helper"` // MarshalText UnmarshalText MarshalBinary UnmarshalBinary MarshalJSON UnmarshalJSON
-	Type         string     `json:"type"`   // SV (value type), SP (pointer type), NoIface, MOnly, UOnly
+	Type         string     `json:"type"`   // SV (value type), SP (pointer type), NoIface, MOnly, UOnly, PRecv (value type whose methods all have pointer receivers)
 	CustomHelper bool       `json:"custom_type_helper"`
 	Cases        []CaseSpec `json:"cases"`
 }
@@ -165,6 +169,26 @@ func (s *UOnly) UnmarshalJSON(b []byte) error {
 	return doUnmarshal(b, func(t int, p string) { s.Tag, s.Payload = t, p })
 }
 
+// PRecv is used as T = PRecv (a value type) although all its methods have pointer receivers: the value itself implements
+// no marshaler (only *PRecv does), the unmarshal helpers can reach the methods through &value.
+type PRecv struct {
+	Tag     int
+	Payload string
+}
+
+func (s *PRecv) MarshalText() ([]byte, error)   { return doMarshal(s.Tag) }
+func (s *PRecv) MarshalBinary() ([]byte, error) { return doMarshal(s.Tag) }
+func (s *PRecv) MarshalJSON() ([]byte, error)   { return doMarshal(s.Tag) }
+func (s *PRecv) UnmarshalText(b []byte) error {
+	return doUnmarshal(b, func(t int, p string) { s.Tag, s.Payload = t, p })
+}
+func (s *PRecv) UnmarshalBinary(b []byte) error {
+	return doUnmarshal(b, func(t int, p string) { s.Tag, s.Payload = t, p })
+}
+func (s *PRecv) UnmarshalJSON(b []byte) error {
+	return doUnmarshal(b, func(t int, p string) { s.Tag, s.Payload = t, p })
+}
+
 // ---- recording TestingT and a well-behaved custom TypeHelper --------------------------------------------------------
 
 type recorder struct {
@@ -219,48 +243,84 @@ type errInfo struct {
 
 func marker(i int) string { return "\x01no-such-text-" + strconv.Itoa(i) + "\x02" }
 
-// predicate builds the AssertErrorFunc of the case and says whether it is met by an error described by e.
-func predicate(cs CaseSpec, idx int, e errInfo) (test.AssertErrorFunc, bool) {
+// predicate builds the AssertErrorFunc of the case; its text is chosen to match (PredHit) or to miss the error described
+// by e. It also returns the text, so that the model can evaluate the same predicate against any other error (evalPred).
+func predicate(cs CaseSpec, idx int, e errInfo) (fn test.AssertErrorFunc, text string) {
 	known := e.exact
 	if known == "" {
 		known = e.prefix
 	}
+	hit := cs.PredHit && e.isErr
 	switch cs.Pred {
 	case 0:
-		return nil, false
+		return nil, ""
 	case 1:
-		return test.AnyError, e.isErr
+		return test.AnyError, ""
 	case 2:
-		if cs.PredHit && e.isErr && e.exact != "" {
-			return test.Error(e.exact), true
+		text = "other text " + marker(idx)
+		if hit && e.exact != "" {
+			text = e.exact
 		}
-		return test.Error("other text " + marker(idx)), false
+		return test.Error(text), text
 	case 3:
-		if cs.PredHit && e.isErr {
-			return test.ErrorHasPrefix(known), true
+		text = marker(idx)
+		if hit {
+			text = known
 		}
-		return test.ErrorHasPrefix(marker(idx)), false
+		return test.ErrorHasPrefix(text), text
 	case 4:
-		if cs.PredHit && e.isErr {
+		text = marker(idx)
+		if hit {
+			text = ""
 			if e.exact != "" {
-				return test.ErrorHasSuffix(e.exact[len(e.exact)/2:]), true
+				text = e.exact[len(e.exact)/2:]
 			}
-			return test.ErrorHasSuffix(""), true
 		}
-		return test.ErrorHasSuffix(marker(idx)), false
+		return test.ErrorHasSuffix(text), text
 	case 5:
-		if cs.PredHit && e.isErr {
-			return test.ErrorMatch("^" + regexp.QuoteMeta(known)), true
+		text = "^no-such-text-" + strconv.Itoa(idx) + "$"
+		if hit {
+			text = "^" + regexp.QuoteMeta(known)
 		}
-		return test.ErrorMatch("^no-such-text-" + strconv.Itoa(idx) + "$"), false
+		return test.ErrorMatch(text), text
 	default:
-		return test.ErrorMatch("(unclosed[" + strconv.Itoa(idx)), false
+		text = "(unclosed[" + strconv.Itoa(idx)
+		return test.ErrorMatch(text), text
 	}
 }
 
+// evalPred is the model's own reading of a predicate (kind, text) on an error described by e. For panic errors only a
+// prefix of the text is known (a stack follows); the texts generated here are decidable from that prefix.
+func evalPred(kind int, text string, e errInfo) bool {
+	if kind == 0 || !e.isErr {
+		return false
+	}
+	full, partial := e.exact, e.exact == ""
+	if partial {
+		full = e.prefix
+	}
+	switch kind {
+	case 1:
+		return true
+	case 2:
+		return !partial && full == text
+	case 3:
+		return strings.HasPrefix(full, text)
+	case 4:
+		if partial {
+			return text == "" // the stack that follows never ends with one of the generated texts
+		}
+		return strings.HasSuffix(full, text)
+	case 5:
+		ok, err := regexp.MatchString(text, full)
+		return err == nil && ok
+	}
+	return false
+}
+
 // silentNonMatch is the matcher of finding F10/K1: ErrorMatch with a valid pattern that does not match a non-nil error.
-func silentNonMatch(cs CaseSpec, e errInfo) bool {
-	return cs.Pred == 5 && !(cs.PredHit && e.isErr) && e.isErr
+func silentNonMatch(cs CaseSpec, text string, e errInfo) bool {
+	return cs.Pred == 5 && e.isErr && !evalPred(5, text, e)
 }
 
 type caseModel struct {
@@ -271,39 +331,61 @@ type caseModel struct {
 
 func hookFails(h int) bool { return h == 2 || h == 3 }
 
-func modelCase(cs CaseSpec, idx int, marshal bool, tag int) (caseModel, errInfo) {
-	var m caseModel
-	var e errInfo
+// errOf describes the error the scripted call of the given direction produces for the case.
+func errOf(cs CaseSpec, marshal bool, tag int) errInfo {
+	t := strconv.Itoa(tag)
 	if marshal {
-		m.applicable = cs.Constraint == 0 || cs.Constraint == 1
 		switch {
 		case cs.NilValue:
-			e = errInfo{isErr: true, prefix: nilDerefPrefix}
+			return errInfo{isErr: true, prefix: nilDerefPrefix}
 		case cs.MErr == 1:
-			e = errInfo{isErr: true, exact: "boom " + strconv.Itoa(tag), prefix: "boom " + strconv.Itoa(tag)}
+			return errInfo{isErr: true, exact: "boom " + t, prefix: "boom " + t}
 		case cs.MErr == 2:
-			e = errInfo{isErr: true, prefix: "panic: pboom " + strconv.Itoa(tag) + "\n"}
+			return errInfo{isErr: true, prefix: "panic: pboom " + t + "\n"}
 		}
+		return errInfo{}
+	}
+	if cs.Before == 4 { // the hook replaced the input before the call: the scripted unmarshaler cannot read it
+		x := fmt.Sprintf("bad scripted input %q", scribbled)
+		return errInfo{isErr: true, exact: x, prefix: x}
+	}
+	switch cs.UErr {
+	case 1:
+		return errInfo{isErr: true, exact: "uboom " + t, prefix: "uboom " + t}
+	case 2:
+		return errInfo{isErr: true, prefix: "panic: upboom " + t + "\n"}
+	}
+	return errInfo{}
+}
+
+// modelCase decides whether case idx is applicable to and satisfied in direction dirMarshal; the predicate text was chosen
+// with respect to the error of direction mainMarshal (the helper the list was generated for).
+func modelCase(cs CaseSpec, idx int, mainMarshal, dirMarshal bool, tag int) caseModel {
+	var m caseModel
+	if dirMarshal {
+		m.applicable = cs.Constraint == 0 || cs.Constraint == 1
 	} else {
 		m.applicable = cs.Constraint == 0 || cs.Constraint == 2
-		switch cs.UErr {
-		case 1:
-			e = errInfo{isErr: true, exact: "uboom " + strconv.Itoa(tag), prefix: "uboom " + strconv.Itoa(tag)}
-		case 2:
-			e = errInfo{isErr: true, prefix: "panic: upboom " + strconv.Itoa(tag) + "\n"}
-		}
 	}
 	if !m.applicable {
-		return m, e
+		return m
 	}
 	if hookFails(cs.Before) || hookFails(cs.After) {
 		m.unsatisfied = true
-		return m, e
+		return m
 	}
-	_, met := predicate(cs, idx, e)
-	if marshal {
+	_, text := predicate(cs, idx, errOf(cs, mainMarshal, tag))
+	e := errOf(cs, dirMarshal, tag)
+	met := evalPred(cs.Pred, text, e)
+	if dirMarshal {
 		dataNil := cs.NilValue || cs.MErr == 2 || cs.MOut == 2
-		dataRight := !dataNil && cs.MOut == 0
+		dataRight := cs.MOut == 0 && !cs.NilValue && cs.MErr != 2
+		if cs.EmptyData && cs.MOut == 2 && !cs.NilValue && cs.MErr != 2 {
+			dataRight = true // nil result against empty expected data
+		}
+		if cs.Before == 4 || cs.After == 4 {
+			dataRight = false // the hook replaced the expected data of this run
+		}
 		if cs.Pred == 0 {
 			m.unsatisfied = e.isErr || !dataRight
 		} else {
@@ -311,37 +393,28 @@ func modelCase(cs CaseSpec, idx int, marshal bool, tag int) (caseModel, errInfo)
 		}
 	} else {
 		stored := cs.UStore // 0 expected, 1 different, 2 nothing
+		if cs.Before == 4 {
+			stored = 2
+		}
 		if cs.Pred == 0 {
 			m.unsatisfied = e.isErr || stored != 0 || cs.NilValue
 		} else {
 			m.unsatisfied = !met || stored != 2
 		}
 	}
-	if m.unsatisfied && cs.Pred != 0 && silentNonMatch(cs, e) {
-		// would the case be satisfied if the predicate had been met? if not, another (reported) reason exists as well
+	if m.unsatisfied && cs.Pred != 0 && silentNonMatch(cs, text, e) {
 		m.silent = true
 	}
-	return m, e
+	return m
 }
 
 // ---- running a list through the real helpers -----------------------------------------------------------------------------
 
-func hook[C any](kind int, tag int) func(int, *C) error {
-	switch kind {
-	case 0:
-		return nil
-	case 1:
-		return func(int, *C) error { return nil }
-	case 2:
-		return func(int, *C) error { return errors.New("hook error " + strconv.Itoa(tag)) }
-	default:
-		return func(int, *C) error { panic("hook panic " + strconv.Itoa(tag)) }
-	}
-}
-
-// runList registers the scripts, calls the helper named in spec with a recording TestingT and returns what was recorded.
-func runList[T any](spec ListSpec, mkValue func(tag int, payload string, isNil bool) T, indices []int) (rec *recorder, panicked any) {
-	base := int(atomic.AddInt64(&tagBase, int64(len(spec.Cases)+8)))
+// runList registers the scripts, builds ONE case slice and hands it to the helper named in spec (recorder 1) and then, if
+// second is set, to the helper of the opposite direction of the same format (recorder 2): the caller's slice must come
+// back untouched from the first helper.
+func runList[T any](spec ListSpec, mkValue func(tag int, payload string, isNil bool) T, indices []int, second bool) (rec, rec2 *recorder, base int, panicked any) {
+	base = int(atomic.AddInt64(&tagBase, int64(len(spec.Cases)+8)))
 	marshal := strings.HasPrefix(spec.Helper, "Marshal")
 	type built struct {
 		constraint test.Constraint
@@ -356,9 +429,11 @@ func runList[T any](spec ListSpec, mkValue func(tag int, payload string, isNil b
 	for _, i := range indices {
 		cs := spec.Cases[i]
 		tag := base + i
-		_, e := modelCase(cs, i, marshal, tag)
-		pred, _ := predicate(cs, i, e)
+		pred, _ := predicate(cs, i, errOf(cs, marshal, tag))
 		data := "u:" + strconv.Itoa(tag)
+		if cs.EmptyData {
+			data = ""
+		}
 		ms := mScript{}
 		switch cs.MOut {
 		case 0:
@@ -392,7 +467,7 @@ func runList[T any](spec ListSpec, mkValue func(tag int, payload string, isNil b
 		defer uReg.Delete(tag)
 		cases = append(cases, built{constraint: test.Constraint(cs.Constraint), before: cs.Before, after: cs.After, pred: pred, data: data, value: mkValue(tag, "p"+strconv.Itoa(tag), cs.NilValue), tag: tag})
 	}
-	rec = &recorder{}
+	rec, rec2 = &recorder{}, &recorder{}
 	var th test.TypeHelper[T]
 	if spec.CustomHelper {
 		th = customHelper[T]{}
@@ -401,58 +476,109 @@ func runList[T any](spec ListSpec, mkValue func(tag int, payload string, isNil b
 		switch spec.Helper {
 		case "MarshalText", "UnmarshalText":
 			cs := make([]test.CaseText[T], len(cases))
+			mk := func(kind, tag int) func(int, *test.CaseText[T]) error {
+				if kind == 4 {
+					return func(_ int, c *test.CaseText[T]) error { c.Data = scribbled; return nil }
+				}
+				return hook[test.CaseText[T]](kind, tag)
+			}
 			for i, b := range cases {
-				cs[i] = test.CaseText[T]{Constraint: b.constraint, Before: hook[test.CaseText[T]](b.before, b.tag), After: hook[test.CaseText[T]](b.after, b.tag), Error: b.pred, Data: b.data, Value: b.value}
+				cs[i] = test.CaseText[T]{Constraint: b.constraint, Before: mk(b.before, b.tag), After: mk(b.after, b.tag), Error: b.pred, Data: b.data, Value: b.value}
 			}
 			if marshal {
 				test.MarshalText(rec, cs)
+				if second {
+					test.UnmarshalText(rec2, cs, th)
+				}
 			} else {
 				test.UnmarshalText(rec, cs, th)
+				if second {
+					test.MarshalText(rec2, cs)
+				}
 			}
 		case "MarshalBinary", "UnmarshalBinary":
 			cs := make([]test.CaseBinary[T], len(cases))
+			mk := func(kind, tag int) func(int, *test.CaseBinary[T]) error {
+				if kind == 4 {
+					return func(_ int, c *test.CaseBinary[T]) error { c.Data = []byte(scribbled); return nil }
+				}
+				return hook[test.CaseBinary[T]](kind, tag)
+			}
 			for i, b := range cases {
-				cs[i] = test.CaseBinary[T]{Constraint: b.constraint, Before: hook[test.CaseBinary[T]](b.before, b.tag), After: hook[test.CaseBinary[T]](b.after, b.tag), Error: b.pred, Data: []byte(b.data), Value: b.value}
+				cs[i] = test.CaseBinary[T]{Constraint: b.constraint, Before: mk(b.before, b.tag), After: mk(b.after, b.tag), Error: b.pred, Data: []byte(b.data), Value: b.value}
 			}
 			if marshal {
 				test.MarshalBinary(rec, cs)
+				if second {
+					test.UnmarshalBinary(rec2, cs, th)
+				}
 			} else {
 				test.UnmarshalBinary(rec, cs, th)
+				if second {
+					test.MarshalBinary(rec2, cs)
+				}
 			}
 		case "MarshalJSON", "UnmarshalJSON":
 			cs := make([]test.CaseJSON[T], len(cases))
+			mk := func(kind, tag int) func(int, *test.CaseJSON[T]) error {
+				if kind == 4 {
+					return func(_ int, c *test.CaseJSON[T]) error { c.Data = scribbled; return nil }
+				}
+				return hook[test.CaseJSON[T]](kind, tag)
+			}
 			for i, b := range cases {
-				cs[i] = test.CaseJSON[T]{Constraint: b.constraint, Before: hook[test.CaseJSON[T]](b.before, b.tag), After: hook[test.CaseJSON[T]](b.after, b.tag), Error: b.pred, Data: b.data, Value: b.value}
+				cs[i] = test.CaseJSON[T]{Constraint: b.constraint, Before: mk(b.before, b.tag), After: mk(b.after, b.tag), Error: b.pred, Data: b.data, Value: b.value}
 			}
 			if marshal {
 				test.MarshalJSON(rec, cs)
+				if second {
+					test.UnmarshalJSON(rec2, cs, th)
+				}
 			} else {
 				test.UnmarshalJSON(rec, cs, th)
+				if second {
+					test.MarshalJSON(rec2, cs)
+				}
 			}
 		default:
 			panic("unknown helper " + spec.Helper)
 		}
 	})
-	return rec, panicked
+	return rec, rec2, base, panicked
 }
 
-func run(spec ListSpec, indices []int) (*recorder, any) {
+func hook[C any](kind int, tag int) func(int, *C) error {
+	switch kind {
+	case 0:
+		return nil
+	case 1:
+		return func(int, *C) error { return nil }
+	case 2:
+		return func(int, *C) error { return errors.New("hook error " + strconv.Itoa(tag)) }
+	default:
+		return func(int, *C) error { panic("hook panic " + strconv.Itoa(tag)) }
+	}
+}
+
+func run(spec ListSpec, indices []int, second bool) (*recorder, *recorder, int, any) {
 	switch spec.Type {
 	case "SV":
-		return runList(spec, func(tag int, p string, _ bool) SV { return SV{tag, p} }, indices)
+		return runList(spec, func(tag int, p string, _ bool) SV { return SV{tag, p} }, indices, second)
 	case "SP":
 		return runList(spec, func(tag int, p string, isNil bool) *SP {
 			if isNil {
 				return nil
 			}
 			return &SP{tag, p}
-		}, indices)
+		}, indices, second)
 	case "NoIface":
-		return runList(spec, func(tag int, p string, _ bool) NoIface { return NoIface{tag, p} }, indices)
+		return runList(spec, func(tag int, p string, _ bool) NoIface { return NoIface{tag, p} }, indices, second)
 	case "MOnly":
-		return runList(spec, func(tag int, p string, _ bool) MOnly { return MOnly{tag, p} }, indices)
+		return runList(spec, func(tag int, p string, _ bool) MOnly { return MOnly{tag, p} }, indices, second)
 	case "UOnly":
-		return runList(spec, func(tag int, p string, _ bool) UOnly { return UOnly{tag, p} }, indices)
+		return runList(spec, func(tag int, p string, _ bool) UOnly { return UOnly{tag, p} }, indices, second)
+	case "PRecv":
+		return runList(spec, func(tag int, p string, _ bool) PRecv { return PRecv{tag, p} }, indices, second)
 	}
 	panic("unknown type " + spec.Type)
 }
@@ -465,7 +591,7 @@ func hasIface(typ string, marshal bool) bool {
 		return true
 	case "MOnly":
 		return marshal
-	case "UOnly":
+	case "UOnly", "PRecv":
 		return !marshal
 	}
 	return false
@@ -475,14 +601,89 @@ func normalise(spec ListSpec) ListSpec {
 	out := spec
 	out.Cases = append([]CaseSpec{}, spec.Cases...)
 	for i := range out.Cases {
+		c := &out.Cases[i]
 		if spec.Type != "SP" {
-			out.Cases[i].NilValue = false
+			c.NilValue = false
+		}
+		if c.Constraint != 1 {
+			c.EmptyData = false // an empty Data cannot carry the scripted unmarshal input
+		}
+		if strings.HasSuffix(spec.Helper, "Binary") {
+			// CaseBinary.Data is a []byte: whether a nil result "differs" from an empty non-nil expectation (or vice versa) is
+			// not settled by the statement (the helper follows testify and says it does); the text and JSON helpers compare
+			// strings, where nil and empty are the same data. Left out for the binary helpers.
+			c.EmptyData = false
+		}
+		if c.EmptyData && c.Pred != 0 && c.MOut == 0 {
+			c.MOut = 2 // an empty non-nil result beside an expected error: the statement speaks of a non-empty result only
 		}
 	}
 	if strings.HasPrefix(spec.Helper, "Marshal") {
 		out.CustomHelper = false
 	}
 	return out
+}
+
+const knownKey = "errormatch-silent-nonmatch"
+
+// verdict compares what one helper run recorded with the model of the list in that direction.
+func verdict(spec ListSpec, w *vkit.W, rec *recorder, base int, mainMarshal, dirMarshal bool, stage string) (nUnsat int) {
+	name := spec.Helper
+	if mainMarshal != dirMarshal {
+		name = map[bool]string{true: "Marshal", false: "Unmarshal"}[dirMarshal] + strings.TrimPrefix(strings.TrimPrefix(spec.Helper, "Marshal"), "Unmarshal") + " (second helper on the same case slice)"
+	}
+	if !hasIface(spec.Type, dirMarshal) {
+		applicable := false
+		for _, cs := range spec.Cases {
+			if (dirMarshal && cs.Constraint != 2) || (!dirMarshal && cs.Constraint != 1) {
+				applicable = true
+			}
+		}
+		if len(spec.Cases) > 0 && applicable && !rec.failed() {
+			w.Fail(spec, "missing-interface-not-reported", fmt.Sprintf("%s[%s]%s: the type lacks the interface, %d cases, nothing reported", name, spec.Type, stage, len(spec.Cases)))
+		}
+		if len(spec.Cases) == 0 && rec.failed() {
+			w.Fail(spec, "empty-list-reported", fmt.Sprintf("%s[%s]%s: no cases, yet a failure was reported: %v", name, spec.Type, stage, rec.errors))
+		}
+		return len(spec.Cases)
+	}
+	unsat := map[int]bool{}
+	nSilent := 0
+	for i, cs := range spec.Cases {
+		m := modelCase(cs, i, mainMarshal, dirMarshal, base+i)
+		if m.applicable && m.unsatisfied {
+			unsat[i] = true
+			nUnsat++
+			if m.silent {
+				nSilent++
+			}
+		}
+	}
+	switch {
+	case nUnsat > 0 && !rec.failed():
+		detail := fmt.Sprintf("%s[%s]%s: cases %v are not satisfied, but the helper reported nothing", name, spec.Type, stage, keys(unsat))
+		if nSilent == nUnsat {
+			w.FailKnown(knownKey, spec, "failure-not-reported", detail)
+		} else {
+			w.Fail(spec, "failure-not-reported", detail)
+		}
+	case nUnsat == 0 && rec.failed():
+		w.Fail(spec, "spurious-failure", fmt.Sprintf("%s[%s]%s: every applicable case is satisfied, yet the helper reported: %v (FailNow x%d)", name, spec.Type, stage, truncateAll(rec.errors), rec.failNow))
+	}
+	if len(rec.errors) < nUnsat-nSilent {
+		w.Fail(spec, "fewer-reports-than-failing-cases", fmt.Sprintf("%s[%s]%s: %d cases are not satisfied (%v) but only %d failures were reported", name, spec.Type, stage, nUnsat, keys(unsat), len(rec.errors)))
+	} else if len(rec.errors) < nUnsat {
+		w.FailKnown(knownKey, spec, "fewer-reports-than-failing-cases", fmt.Sprintf("%s[%s]%s: %d cases are not satisfied (%v) but only %d failures were reported", name, spec.Type, stage, nUnsat, keys(unsat), len(rec.errors)))
+	}
+	for _, msg := range rec.errors {
+		for _, mm := range caseNo.FindAllStringSubmatch(msg, -1) {
+			n, _ := strconv.Atoi(mm[1])
+			if n < len(spec.Cases) && !unsat[n] {
+				w.Fail(spec, "satisfied-case-named-as-failed", fmt.Sprintf("%s[%s]%s: report names case %d, which is satisfied or not applicable: %s", name, spec.Type, stage, n, truncate(msg)))
+			}
+		}
+	}
+	return nUnsat
 }
 
 func judge(spec ListSpec, w *vkit.W) (anyUnsat bool) {
@@ -497,81 +698,37 @@ func judge(spec ListSpec, w *vkit.W) (anyUnsat bool) {
 	for i := range all {
 		all[i] = i
 	}
-	rec, panicked := run(spec, all)
+	rec, rec2, base, panicked := run(spec, all, true)
 	if panicked != nil {
-		w.Fail(spec, "panic-escaped-helper", fmt.Sprintf("%s[%s] let a panic escape: %v", spec.Helper, spec.Type, panicked))
+		w.Fail(spec, "panic-escaped-helper", fmt.Sprintf("%s[%s] (or the opposite helper run after it on the same slice) let a panic escape: %v", spec.Helper, spec.Type, panicked))
 		return
 	}
+	n1 := verdict(spec, w, rec, base, marshal, marshal, "")
+	verdict(spec, w, rec2, base, marshal, !marshal, "")
 	if !hasIface(spec.Type, marshal) {
-		applicable := false
-		for _, cs := range spec.Cases {
-			if (marshal && cs.Constraint != 2) || (!marshal && cs.Constraint != 1) {
-				applicable = true
-			}
-		}
-		if len(spec.Cases) > 0 && applicable && !rec.failed() {
-			w.Fail(spec, "missing-interface-not-reported", fmt.Sprintf("%s[%s]: the type lacks the interface, %d cases, nothing reported", spec.Helper, spec.Type, len(spec.Cases)))
-		}
-		if len(spec.Cases) == 0 && rec.failed() {
-			w.Fail(spec, "empty-list-reported", fmt.Sprintf("%s[%s]: no cases, yet a failure was reported: %v", spec.Helper, spec.Type, rec.errors))
-		}
-		return len(spec.Cases) > 0
-	}
-	unsat := map[int]bool{}
-	nUnsat, nSilent := 0, 0
-	for i, cs := range spec.Cases {
-		m, _ := modelCase(cs, i, marshal, 0)
-		if m.applicable && m.unsatisfied {
-			unsat[i] = true
-			nUnsat++
-			if m.silent {
-				nSilent++
-			}
-		}
-	}
-	const key = "errormatch-silent-nonmatch"
-	fail := func(silentInvolved bool, class, detail string) {
-		if silentInvolved {
-			w.FailKnown(key, spec, class, detail)
-		} else {
-			w.Fail(spec, class, detail)
-		}
-	}
-	switch {
-	case nUnsat > 0 && !rec.failed():
-		fail(nSilent == nUnsat, "failure-not-reported", fmt.Sprintf("%s[%s]: cases %v are not satisfied, but the helper reported nothing", spec.Helper, spec.Type, keys(unsat)))
-	case nUnsat == 0 && rec.failed():
-		w.Fail(spec, "spurious-failure", fmt.Sprintf("%s[%s]: every applicable case is satisfied, yet the helper reported: %v (FailNow x%d)", spec.Helper, spec.Type, truncateAll(rec.errors), rec.failNow))
-	}
-	if len(rec.errors) < nUnsat-nSilent {
-		w.Fail(spec, "fewer-reports-than-failing-cases", fmt.Sprintf("%s[%s]: %d cases are not satisfied (%v) but only %d failures were reported", spec.Helper, spec.Type, nUnsat, keys(unsat), len(rec.errors)))
-	} else if len(rec.errors) < nUnsat {
-		w.FailKnown(key, spec, "fewer-reports-than-failing-cases", fmt.Sprintf("%s[%s]: %d cases are not satisfied (%v) but only %d failures were reported", spec.Helper, spec.Type, nUnsat, keys(unsat), len(rec.errors)))
-	}
-	for _, msg := range rec.errors {
-		for _, mm := range caseNo.FindAllStringSubmatch(msg, -1) {
-			n, _ := strconv.Atoi(mm[1])
-			if n < len(spec.Cases) && !unsat[n] {
-				w.Fail(spec, "satisfied-case-named-as-failed", fmt.Sprintf("%s[%s]: report names case %d, which is satisfied or not applicable: %s", spec.Helper, spec.Type, n, truncate(msg)))
-			}
-		}
+		return n1 > 0
 	}
 	// per-case verdicts: every applicable case alone
 	for i, cs := range spec.Cases {
-		m, _ := modelCase(cs, i, marshal, 0)
-		if !m.applicable || len(spec.Cases) == 1 {
+		if cm := modelCase(cs, i, marshal, marshal, base+i); !cm.applicable || len(spec.Cases) == 1 {
 			continue
 		}
-		r1, p1 := run(spec, []int{i})
+		r1, _, b1, p1 := run(spec, []int{i}, false)
+		m := modelCase(cs, i, marshal, marshal, b1+i)
 		if p1 != nil {
 			w.Fail(spec, "panic-escaped-helper", fmt.Sprintf("%s[%s] with case %d alone let a panic escape: %v", spec.Helper, spec.Type, i, p1))
 			continue
 		}
 		if r1.failed() != m.unsatisfied {
-			fail(m.silent, "per-case-verdict", fmt.Sprintf("%s[%s]: case %d alone: reported=%v, model says unsatisfied=%v; reports: %v", spec.Helper, spec.Type, i, r1.failed(), m.unsatisfied, truncateAll(r1.errors)))
+			detail := fmt.Sprintf("%s[%s]: case %d alone: reported=%v, model says unsatisfied=%v; reports: %v", spec.Helper, spec.Type, i, r1.failed(), m.unsatisfied, truncateAll(r1.errors))
+			if m.silent {
+				w.FailKnown(knownKey, spec, "per-case-verdict", detail)
+			} else {
+				w.Fail(spec, "per-case-verdict", detail)
+			}
 		}
 	}
-	return nUnsat > 0
+	return n1 > 0
 }
 
 func keys(m map[int]bool) []int {
@@ -607,10 +764,10 @@ func truncateAll(ss []string) []string {
 // ---- generation ----------------------------------------------------------------------------------------------------------------
 
 var helpers = []string{"MarshalText", "UnmarshalText", "MarshalBinary", "UnmarshalBinary", "MarshalJSON", "UnmarshalJSON"}
-var typesAll = []string{"SV", "SP", "SV", "SP", "NoIface", "MOnly", "UOnly"}
+var typesAll = []string{"SV", "SP", "SV", "SP", "NoIface", "MOnly", "UOnly", "PRecv"}
 
 func genCase(rt *rapid.T) CaseSpec {
-	hookG := rapid.SampledFrom([]int{0, 0, 0, 1, 1, 2, 3})
+	hookG := rapid.SampledFrom([]int{0, 0, 0, 0, 1, 1, 2, 3, 4})
 	cs := CaseSpec{
 		Constraint: rapid.SampledFrom([]int{0, 0, 1, 2}).Draw(rt, "constraint"),
 		Before:     hookG.Draw(rt, "before"),
@@ -622,11 +779,15 @@ func genCase(rt *rapid.T) CaseSpec {
 		UStore:     rapid.SampledFrom([]int{0, 0, 1, 2}).Draw(rt, "uStore"),
 		UErr:       rapid.SampledFrom([]int{0, 0, 1, 2}).Draw(rt, "uErr"),
 		NilValue:   rapid.IntRange(0, 9).Draw(rt, "nilValue") == 0,
+		EmptyData:  rapid.IntRange(0, 7).Draw(rt, "emptyData") == 0,
 	}
 	// bias towards coherent cases (an expected error together with an error and no result; a plain success)
 	switch rapid.IntRange(0, 3).Draw(rt, "coherent") {
 	case 0:
-		cs.Pred, cs.MErr, cs.MOut, cs.UErr, cs.UStore, cs.Before, cs.After, cs.NilValue = 0, 0, 0, 0, 0, 0, 0, false
+		cs.Pred, cs.MErr, cs.UErr, cs.UStore, cs.Before, cs.After, cs.NilValue = 0, 0, 0, 0, 0, 0, false
+		if cs.MOut == 1 {
+			cs.MOut = 0
+		}
 	case 1:
 		if cs.Pred == 0 {
 			cs.Pred = 1
@@ -652,8 +813,8 @@ func TestCheck(t *testing.T) {
 		r.Serial(func(w *vkit.W) { judge(c, w); w.Eval(true) })
 		return
 	}
-	r.Rule("A case is one helper invocation: helper (6) x scripted type (value type, pointer type, no interface, marshal-only, unmarshal-only) x list of 0-6 case specs (constraint, before/after hook nil/ok/error/panic, error predicate kind with a text chosen to match or miss the scripted error, scripted marshal/unmarshal outcome incl. error with data and panics, nil pointer values) x optional custom TypeHelper. " +
-		"Oracle: an independent model of case satisfaction; the helper must report (>= 1 Errorf/FailNow on a recording TestingT) iff some applicable case is unsatisfied or the type lacks the interface, report at least once per unsatisfied case, name only unsatisfied cases in 'case N failed', give the same verdict for each case run alone, and never let a panic escape. " +
+	r.Rule("A case is one helper invocation: helper (6) x scripted type (value type, pointer type, no interface, marshal-only, unmarshal-only, value type with pointer-receiver methods) x list of 0-6 case specs (constraint, before/after hook nil/ok/error/panic/rewrites-the-case-it-is-handed, error predicate kind with a text chosen to match or miss the scripted error, scripted marshal/unmarshal outcome incl. error with data and panics, nil pointer values) x optional custom TypeHelper. " +
+		"Oracle: an independent model of case satisfaction; the helper must report (>= 1 Errorf/FailNow on a recording TestingT) iff some applicable case is unsatisfied or the type lacks the interface, report at least once per unsatisfied case, name only unsatisfied cases in 'case N failed', give the same verdict for each case run alone, leave the caller's case slice untouched (the opposite helper is run on the same slice afterwards and judged against the original list), and never let a panic escape. " +
 		"Non-trivial: lists with an unsatisfied applicable case, a panic, a hook or a missing interface. Distinct by construction (exhaustive single-case grid) or by hash (rapid).")
 	r.Regress(func(raw json.RawMessage, w *vkit.W) error {
 		var c ListSpec
@@ -666,7 +827,7 @@ func TestCheck(t *testing.T) {
 	})
 
 	// Phase A: exhaustive single-case lists over the whole spec space x helpers x types (incl. a satisfied companion case in front).
-	r.Phase("A: exhaustive single-case grid (all field combinations) x 6 helpers x 5 types, alone and behind a satisfied case", func() {
+	r.Phase("A: exhaustive single-case grid (all field combinations) x 6 helpers x 6 types, alone and behind a satisfied case, each list also handed to the opposite helper afterwards", func() {
 		var specs []CaseSpec
 		for con := 0; con < 3; con++ {
 			for hk := 0; hk < 16; hk++ {
@@ -684,7 +845,27 @@ func TestCheck(t *testing.T) {
 				}
 			}
 		}
-		types := []string{"SV", "SP", "NoIface", "MOnly", "UOnly"}
+		for con := 0; con < 3; con++ {
+			for _, hk := range [][2]int{{4, 0}, {0, 4}, {4, 4}, {4, 1}, {1, 4}} {
+				for pred := 0; pred <= 6; pred++ {
+					for hit := 0; hit < 2; hit++ {
+						for out := 0; out < 3; out++ {
+							for er := 0; er < 3; er++ {
+								specs = append(specs, CaseSpec{Constraint: con, Before: hk[0], After: hk[1], Pred: pred, PredHit: hit == 1, MOut: out, MErr: er, UStore: out, UErr: er})
+							}
+						}
+					}
+				}
+			}
+		}
+		for pred := 0; pred <= 6; pred++ {
+			for out := 0; out < 3; out++ {
+				for er := 0; er < 3; er++ {
+					specs = append(specs, CaseSpec{Constraint: 1, EmptyData: true, Pred: pred, PredHit: true, MOut: out, MErr: er})
+				}
+			}
+		}
+		types := []string{"SV", "SP", "NoIface", "MOnly", "UOnly", "PRecv"}
 		r.Parallel(int64(len(specs)), 16, func(w *vkit.W, lo, hi int64) {
 			for i := lo; i < hi; i++ {
 				for _, h := range helpers {
@@ -728,13 +909,14 @@ func TestCheck(t *testing.T) {
 			{MErr: 2, UErr: 2}, {Pred: 3, PredHit: true, MErr: 2, UErr: 2, UStore: 2}, // panics
 			{Before: 2}, {After: 3}, {Before: 1, After: 1},
 			{Constraint: 1, Pred: 6, MErr: 1, MOut: 2}, {Constraint: 2, Pred: 5, UErr: 1, UStore: 2},
+			{After: 4}, {Before: 4, Constraint: 1}, {Constraint: 1, EmptyData: true, MOut: 2}, // hooks that rewrite the case they are handed; nil result for empty data
 		}
 		np := int64(len(pal))
 		r.Parallel(np*np*np, 32, func(w *vkit.W, lo, hi int64) {
 			for k := lo; k < hi; k++ {
 				a, b, c := pal[k/(np*np)], pal[k/np%np], pal[k%np]
 				for hi2, h := range helpers {
-					typ := []string{"SV", "SP"}[(int(k)+hi2)%2]
+					typ := []string{"SV", "SP", "PRecv"}[(int(k)+hi2)%3]
 					ls := ListSpec{Helper: h, Type: typ, Cases: []CaseSpec{a, b, c}, CustomHelper: k%3 == 0}
 					if k%np == 0 { // also the pair (a, b) on its own
 						pair := ListSpec{Helper: h, Type: typ, Cases: []CaseSpec{a, b}}
@@ -745,7 +927,7 @@ func TestCheck(t *testing.T) {
 			}
 		})
 	})
-	r.Exhaustive("all ordered pairs and triples over a 20-element palette of case specs x 6 helpers")
+	r.Exhaustive("all ordered pairs and triples over a 23-element palette of case specs x 6 helpers (each list run through the helper and then, on the same slice, through the opposite helper)")
 
 	r.Phase("B: rapid case lists of length 0..6", func() {
 		r.Rapid(t, "rapid-lists", 0, r.Pick(30000, 1200000), func(rt *rapid.T, w *vkit.W) vkit.RapidCase {
